@@ -51,6 +51,8 @@ def c01(ctx, rep):
     _gate_v6(m, rep, "C01")
     from .checks_misc import stage_state_rule
     stage_state_rule(ctx, rep, "C01", IP_STAGE_ROOTS)
+    _private_merge(ctx, m, rep, "C01")  # the listed networks are pinned only if the merged list reaches the constructor as a list (collisions with a preserved block otherwise)
+    _cli_binding_networks(ctx, m, rep, "C01")
     _one_anonymizer_per_run(ctx, m, rep, "C01")  # two addresses of one run are mapped by one function (a rebuilt anonymizer draws a new salt when none was given)
 
 
@@ -395,6 +397,7 @@ def c02(ctx, rep):
     rep.rule = "one obligation per (clause, path/call site); compares def-use terms of the two walks and the call-argument bindings of the undo flag"
     rep.trust(*TRUST_IP)
     rep.assume("C01's obligations (F is a bijection at every node) — re-checked here for the forward walk as the sibling reference")
+    _stage_families(ctx, m, rep, "C02")
     m.check_subclasses(rep, "C02")  # both directions run the base's functions for both families (method resolution order)
     fwd = m.check_walk(rep, "C02.fwd")
     inv = m.check_walk(rep, "C02", inverse=True)
@@ -519,6 +522,25 @@ def _one_anonymizer_per_run(ctx, m, rep, cl):
                 fresh = M.is_call(e.c) and all(t[0] == "inst" for t in ts) and bool(ts)
                 rep.ob(cl + ".fresh-anonymizer", "FileAnonymizer.%s" % e.b, fresh, "self.%s = %s; must be a freshly constructed anonymizer (no registry / reuse across runs)" % (e.b, show(e.c)), where(f_fa, e.node),
                        key="%s.fresh-anonymizer|%s" % (cl, e.b))
+    _stage_families(ctx, m, rep, cl)
+
+
+def _stage_families(ctx, m, rep, cl):
+    """The field the IPv4 pass reads holds the IPv4 anonymizer and the field the IPv6 pass reads the IPv6 one (the passes are told apart
+    by field in the line loop; two objects swapped behind the names swap the order of the passes and the width of the walk)."""
+    p, A, G = ctx.p, ctx.A, ctx.G
+    f_fa = p.find_function("FileAnonymizer.__init__")
+    want = {"anonymizer4": m.v4, "anonymizer6": m.v6}
+    seen = set()
+    for path in A.paths(f_fa).paths:
+        for e, ls in path.stores():
+            if e.kind == "store_attr" and e.b in want and e.c != ("const", None) and (e.b, e.c) not in seen:
+                seen.add((e.b, e.c))
+                ts = G.types_of(e.c, f_fa)
+                ok = bool(ts) and all(t[0] == "inst" and t[1] is want[e.b] for t in ts)
+                rep.ob(cl + ".stage-family", "FileAnonymizer.%s" % e.b, ok, "self.%s = %s (%s); expected an instance of %s" % (e.b, show(e.c)[:80], sorted(str(t[1]) for t in ts), want[e.b].name), where(f_fa, e.node),
+                       key="%s.stage-family|%s" % (cl, e.b))
+    rep.ob(cl + ".stage-family-found", "FileAnonymizer.__init__", {b for b, _ in seen} == set(want), "stores to the address-stage fields examined: %s" % sorted(b for b, _ in seen), where(f_fa), nontrivial=False)
 
 
 def _random_call(t):
@@ -933,6 +955,9 @@ def c04(ctx, rep):
     m.check_walk(rep, "C04")
     m.check_base_init(rep, "C04")
     m.check_subclasses(rep, "C04")
+    _stage_families(ctx, m, rep, "C04")
+    from .checks_misc import argument_mutation_rule
+    argument_mutation_rule(ctx, rep, "C04", [f for f in [c.find_method("__init__") for c in [m.base] + m.p.subclasses(m.base)] if f is not None])  # the default prefix table stays the default
     # default list as a set of pinned nodes
     try:
         dflt = tuple(ctx.folder.class_const(m.v4, "DEFAULT_PRESERVED_PREFIXES"))
@@ -1102,6 +1127,7 @@ def c05(ctx, rep):
     rep.assume("the recognised bit idioms ('d & (~d + 1) == d' etc. on the 31 adjacent-bit transitions) accept exactly the 64 mask/wildcard words: the arithmetic identity is trusted, only shape and constants are checked")
     _undo_threading(ctx, m, rep, "C05")
     m.check_subclasses(rep, "C05")
+    _stage_families(ctx, m, rep, "C05")
     _gate_content(ctx, m, rep, "C05")
     # _preserve_addresses built from every element
     fn = m.f_v4init
